@@ -411,6 +411,7 @@ func runC09(s c09Scen, c *ev.Case) *ev.Violation {
 }
 
 func c09CheckPrefix(s c09Scen, journal []miniredis.Cmd, k int, state *c09State, inflight map[string]bool, c *ev.Case) *ev.Violation {
+	_ = k
 	r2 := miniredis.Materialize(journal, k)
 	if _, err := r2.Start(); err != nil {
 		return harnessErr("materialise: %v", err)
@@ -480,22 +481,54 @@ func c09CheckPrefix(s c09Scen, journal []miniredis.Cmd, k int, state *c09State, 
 			idsAw = append(idsAw, int(id))
 		}
 		sort.Ints(idsAw)
+		// Two ways a resumed publisher can continue a flow that awaited PUBREL, alternating over the prefixes:
+		//  A  it retransmits the PUBLISH (DUP): must not be forwarded again;
+		//  B  it only sends PUBREL: PUBCOMP completes the flow, and a NEW message that reuses the id must be forwarded.
+		variantB := k%2 == 1
+		fresh := map[string]bool{}
 		for _, id := range idsAw {
 			u := state.awaiting[uint16(id)]
-			if err := p2.Send(&mw.Packet{Type: mw.PUBLISH, Topic: "t/a", QoS: 2, Dup: true, PacketID: uint16(id), Payload: []byte(u)}); err != nil {
+			if !variantB {
+				if err := p2.Send(&mw.Packet{Type: mw.PUBLISH, Topic: "t/a", QoS: 2, Dup: true, PacketID: uint16(id), Payload: []byte(u)}); err != nil {
+					return harnessErr("send: %v", err)
+				}
+				if _, err := p2.WaitAck(mw.PUBREC, uint16(id), fixture.DefaultWait); err != nil {
+					return ev.Violf("C09.ack", "retransmitted QoS2 PUBLISH not acknowledged after restart: %v", err)
+				}
+				continue
+			}
+			if err := p2.Send(&mw.Packet{Type: mw.PUBREL, PacketID: uint16(id)}); err != nil {
 				return harnessErr("send: %v", err)
 			}
-			if _, err := p2.WaitAck(mw.PUBREC, uint16(id), fixture.DefaultWait); err != nil {
-				return ev.Violf("C09.ack", "retransmitted QoS2 PUBLISH not acknowledged after restart: %v", err)
+			if _, err := p2.WaitAck(mw.PUBCOMP, uint16(id), fixture.DefaultWait); err != nil {
+				return ev.Violf("C09.ack", "PUBREL for an id awaiting PUBREL before the crash not answered after restart: %v", err)
 			}
+			nu := fmt.Sprintf("new-%d", id)
+			fresh[nu] = true
+			if _, err := p2.Publish(&mw.Packet{Topic: "t/a", QoS: 2, PacketID: uint16(id), Payload: []byte(nu)}); err != nil {
+				return ev.Violf("C09.ack", "new QoS2 PUBLISH reusing a completed id not acknowledged after restart: %v", err)
+			}
+		}
+		if err := p2.Ping(fixture.DefaultWait); err != nil {
+			return harnessErr("ping: %v", err)
 		}
 		if err := sentinelBarrier(b2, []*fixture.Client{witness}, "aw"); err != nil {
 			return harnessErr("%v", err)
 		}
 		for _, r := range witness.All() {
 			if r.P.Type == mw.PUBLISH && !isSentinel(r.P) {
+				if fresh[string(r.P.Payload)] {
+					delete(fresh, string(r.P.Payload))
+					continue
+				}
 				return ev.Violf("C09.qos2-duplicate", "QoS2 packet id awaiting PUBREL before the crash was forwarded again after restart: %s", r.P).With("client_id", "PUB")
 			}
+		}
+		if len(fresh) > 0 {
+			return ev.Violf("C09.qos2-id-stuck", "after restart the flow awaiting PUBREL was completed (PUBREL/PUBCOMP), but a new QoS2 message reusing the packet id was acknowledged and never forwarded: %v", keysOf(fresh)).With("client_id", "PUB")
+		}
+		if variantB {
+			c.Count("qos2_pubrel_then_reuse_checks", 1)
 		}
 		c.Count("qos2_dup_checks", 1)
 	}
